@@ -5,6 +5,7 @@ Driver for the `region` machine (C08 / C04: `CycleInterval`, `CircuitRegion`).
   iv <alo> <ahi> <blo> <bhi> <c>        every interval method on the pair (a, b) and the cycle c
   one <region> | <k> <c> <q>            every unary region method (shift amount k, point (c, q))
   pair <region> | <region>              every binary region method
+  topo <region> <region> …              GreedyPartitioner.topo_sort: indices in output order, or !runtime
 Region text: `q:lo:hi,q:lo:hi,…` in dict order, `-` for the empty region.
 Output: `name=value` fields separated by spaces; errors are `!value`, `!type`, `!key`.
 -/
@@ -72,6 +73,12 @@ def step (line : String) : String :=
     match parseRegion r, parseRegion s with
     | some r, some s => pairLine r s
     | _, _ => "bad-op"
+  | [("topo" :: rs)] =>
+    match rs.mapM parseRegion with
+    | some rs => match topoSortRegions rs with
+      | some out => showNats out
+      | none => "!runtime"
+    | none => "bad-op"
   | _ => "bad-op"
 
 def main : IO Unit := do loop (← IO.getStdin) step
